@@ -8246,6 +8246,19 @@ impl GraphEngine {
             None
         };
 
+        // Hold every endpoint's node stripe shared (ascending, each once) so that delete_node
+        // cannot remove an endpoint between validation and creation
+        let mut stripes: Vec<usize> = edges
+            .iter()
+            .flat_map(|e| [self.lock_index(e.from), self.lock_index(e.to)])
+            .collect();
+        stripes.sort_unstable();
+        stripes.dedup();
+        let _node_guards: Vec<_> = stripes
+            .iter()
+            .map(|&s| self.node_locks[s].read())
+            .collect();
+
         // Phase 1: Validate all source/target nodes exist and constraints
         for (idx, edge) in edges.iter().enumerate() {
             if !self.node_exists(edge.from) {
